@@ -191,9 +191,9 @@ def validate_trace(module, cfg_text, trace_file, work, timeout=1800, depth_first
         sc = re.findall(r"^/\\ scen = (\d+)", r.out, re.M)
         if sc:
             info["scen"] = int(sc[-1])
-        bad = re.findall(r"^/\\ bad = (.*)", r.out, re.M)
+        bad = re.findall(r"^/\\ bad = (.*(?:\n(?!/\\ |\n|State |Error).*)*)", r.out, re.M)
         if bad:
-            info["bad"] = bad[-1]
+            info["bad"] = " ".join(bad[-1].split())
         return r, info
     if r.rejected:
         info["kind"] = "rejected"
